@@ -326,11 +326,12 @@ fn markers(ttl: u8, j: u8) -> [String; 3] {
     [format!("1{t:02}.2{j:02}."), format!(":1{t:02}:2{j:02}:"), format!("hop{t:02}a{j:02}")]
 }
 
-/// shortest prefixes that still identify the ttl of a marker (text may be cut by a narrow column);
-/// no other number on the screen has this shape (round-trip times stay below 100 ms)
-fn short_markers(ttl: u8) -> [String; 3] {
-    let t = ttl % 100;
-    [format!("1{t:02}.2"), format!(":1{t:02}:2"), format!("hop{t:02}a")]
+/// short prefixes that still identify the ttl of a marker (text may be cut by a narrow column).  No other
+/// number on the screen has this shape: the first digit of the second octet follows the `.2`, whereas
+/// times and percentages are printed with a single decimal
+fn short_markers(ttl: u8, j: u8) -> [String; 3] {
+    let (t, d) = (ttl % 100, (j % 56) / 10);
+    [format!("1{t:02}.2{d}"), format!(":1{t:02}:2{d}"), format!("hop{t:02}a")]
 }
 
 // ------------------------------------------------------------------------------------------
@@ -767,10 +768,12 @@ impl Live {
         if let Some(n) = self.app.tui_config.privacy_max_ttl {
             v.push(SRC_MARK.to_string());
             v.push(SRC_HOST_MARK.to_string());
-            let ttls: BTreeSet<u8> = self.marks.iter().map(|&(t, _)| t).filter(|&t| t <= n).collect();
-            for t in ttls {
-                v.extend(short_markers(t));
+            let keys: BTreeSet<(u8, u8)> = self.marks.iter().filter(|&&(t, _)| t <= n).map(|&(t, j)| (t, j / 10 * 10)).collect();
+            for (t, j) in keys {
+                v.extend(short_markers(t, j));
             }
+            v.sort();
+            v.dedup();
         }
         v
     }
